@@ -130,7 +130,8 @@ class Ctx:
     # ------------------------------------------------------------------ Lean side
     def _lock(self):
         os.makedirs(os.path.join(LEAN, ".lake"), exist_ok=True)
-        f = open(os.path.join(LEAN, ".lake", "verif.lock"), "w")
+        # one lock per property: checks of different properties build different modules and may run concurrently
+        f = open(os.path.join(LEAN, ".lake", f"verif-{self.prop}.lock"), "w")
         fcntl.flock(f, fcntl.LOCK_EX)
         return f
 
